@@ -70,6 +70,41 @@ func h(xs []int) int {
 	}
 	return a + b
 }
+func s(xs []int) int {
+	p := -1
+	q := -1
+	for i := range xs {
+		if xs[i] == 1 {
+			p = i
+		}
+		if xs[i] == 2 {
+			q = i
+		}
+	}
+	if p <= 0 {
+		return 0
+	}
+	if q < 0 {
+		return 0
+	}
+	return p + q
+}
+func mayFail() error { return nil }
+func k() error {
+	err := mayFail()
+	if err != nil {
+		return fmt.Errorf("a: %w", err)
+	}
+	err = mayFail()
+	if !(err != nil) {
+		return fmt.Errorf("b: %w", err)
+	}
+	err = mayFail()
+	if err == nil {
+		return err
+	}
+	return nil
+}
 type Role int
 const (
 	RA Role = 1
@@ -313,8 +348,12 @@ func runC13(cx *CheckCtx) {
 	} else {
 		c1, c2 := ruleIndexSpace(ctl), ruleMapOrderWitness(ctl)
 		cx.decide(len(c1) == 2, "positive-control", "index-space", "the rule fires on the embedded example of the defect (2 uses) and not on the corrected loop", fmt.Sprintf("the index-space rule matched %d sites of its embedded positive example, expected 2: the rule is broken", len(c1)), "")
+		n5, c5 := ruleNilErrorUse(ctl)
+		cx.decide(n5 == 5 && len(c5) == 2, "positive-control", "nil-error-use", "the rule sees the five embedded error tests and fires on the two inverted ones", fmt.Sprintf("the nil-error-use rule matched %d tests / %d findings on its embedded example, expected 5 / 2: the rule is broken", n5, len(c5)), "")
 		n4, c4 := ruleFrozenSentinel(ctl)
-		cx.decide(n4 == 2 && len(c4) == 1, "positive-control", "frozen-sentinel", "the rule sees both embedded sentinels and fires on the one that is never assigned", fmt.Sprintf("the frozen-sentinel rule matched %d variables / %d findings on its embedded example, expected 2 / 1: the rule is broken", n4, len(c4)), "")
+		n6, c6 := ruleSentinelTest(ctl)
+		cx.decide(n6 == 3 && len(c6) == 1, "positive-control", "sentinel-test", "the rule sees the three embedded 'not found' tests and fires on the one that rejects position 0", fmt.Sprintf("the sentinel-test rule matched %d tests / %d findings on its embedded example, expected 3 / 1: the rule is broken", n6, len(c6)), "")
+		cx.decide(n4 == 4 && len(c4) == 1, "positive-control", "frozen-sentinel", "the rule sees the embedded sentinels and fires on the one that is never assigned", fmt.Sprintf("the frozen-sentinel rule matched %d variables / %d findings on its embedded example, expected 2 / 1: the rule is broken", n4, len(c4)), "")
 		n3, c3 := ruleStatedConstant(ctl)
 		cx.decide(n3 == 2 && len(c3) == 1, "positive-control", "stated-constant", "the rule sees both embedded sites and fires on the contradictory one only", fmt.Sprintf("the stated-constant rule matched %d sites / %d findings on its embedded example, expected 2 / 1: the rule is broken", n3, len(c3)), "")
 		cx.decide(len(c2) == 1, "positive-control", "map-order-witness", "the rule fires on the embedded example (and not on the order-insensitive sum)", fmt.Sprintf("the map-order rule matched %d sites of its embedded positive example, expected 1: the rule is broken", len(c2)), "")
@@ -376,6 +415,30 @@ func runC13(cx *CheckCtx) {
 	checkStageOrder(cx, sp)
 	checkCacheInvalidation(cx, sp)
 	checkTxWindow(cx, sp)
+	checkPendingGuards(cx, sp)
+	checkIndexOnEqualSide(cx, sp)
+	checkSharedMatch(cx, sp)
+	checkVerifiedSignatures(cx, sp)
+	// D12 the 'not found' test of a position-or-sentinel local keeps position 0 with the other positions
+	nST, fst := ruleSentinelTest(p)
+	cx.count("sentinel_tests", nST)
+	cx.floor("sentinel_tests", 2)
+	for _, f := range fst {
+		cx.violated("sentinel-test", "deploy."+f.fn, f.what, w.pos(f.pos))
+	}
+	if len(fst) == 0 {
+		cx.holds("sentinel-test", "deploy", fmt.Sprintf("%d 'not found' tests of position-or-sentinel locals: each keeps all positions on one side", nST))
+	}
+	// D11 an error value used on the branch where it was just found to be nil
+	nErr, fnil := ruleNilErrorUse(p)
+	cx.count("error_tests", nErr)
+	cx.floor("error_tests", 100)
+	for _, f := range fnil {
+		cx.violated("nil-error-use", "deploy."+f.fn, f.what, w.pos(f.pos))
+	}
+	if len(fnil) == 0 {
+		cx.holds("nil-error-use", "deploy", fmt.Sprintf("%d tests of an error against nil: none wraps, logs or returns the error on its nil side", nErr))
+	}
 	// D10 a local initialised to a constant sentinel, never assigned again, but branched on
 	nSent, fsent := ruleFrozenSentinel(p)
 	cx.count("sentinel_variables", nSent)
@@ -1496,4 +1559,262 @@ func ruleFrozenSentinel(p *astPkg) (int, []finding) {
 	}
 	sort.Slice(out, func(i, j int) bool { return out[i].pos < out[j].pos })
 	return n, out
+}
+
+// ruleNilErrorUse: `if err == nil { … err … }` (also spelled `if !(err != nil)`
+// or as the else branch of `err != nil`): on the branch where an error variable
+// was just found to be nil it is wrapped (fmt.Errorf), logged (zap.Error),
+// asked for its text (err.Error()) or returned, without having been assigned
+// again. The test and the use contradict each other: the condition is
+// inverted, and the failure path of the call is taken for its success.
+// Returns the number of nil tests of error-typed variables and the findings.
+func ruleNilErrorUse(p *astPkg) (int, []finding) {
+	encl := enclosingFuncs(p.files)
+	errType := types.Universe.Lookup("error").Type()
+	var out []finding
+	n := 0
+	// nilTest: cond tests an error identifier against nil; returns the object and whether cond true means "is nil"
+	var nilTest func(e ast.Expr) (types.Object, bool, bool)
+	nilTest = func(e ast.Expr) (types.Object, bool, bool) {
+		switch x := e.(type) {
+		case *ast.ParenExpr:
+			return nilTest(x.X)
+		case *ast.UnaryExpr:
+			if x.Op == token.NOT {
+				o, isNil, ok := nilTest(x.X)
+				return o, !isNil, ok
+			}
+		case *ast.BinaryExpr:
+			if x.Op != token.EQL && x.Op != token.NEQ {
+				return nil, false, false
+			}
+			id, isID := x.X.(*ast.Ident)
+			nl, isNl := x.Y.(*ast.Ident)
+			if !isID || !isNl || nl.Name != "nil" {
+				return nil, false, false
+			}
+			o := p.info.Uses[id]
+			if o == nil || !types.Identical(o.Type(), errType) {
+				return nil, false, false
+			}
+			return o, x.Op == token.EQL, true
+		}
+		return nil, false, false
+	}
+	check := func(body *ast.BlockStmt, o types.Object, at ast.Node) {
+		if body == nil {
+			return
+		}
+		reassigned := false
+		ast.Inspect(body, func(m ast.Node) bool {
+			if reassigned {
+				return false
+			}
+			switch y := m.(type) {
+			case *ast.AssignStmt:
+				for _, l := range y.Lhs {
+					if id, ok := l.(*ast.Ident); ok && (p.info.Uses[id] == o || p.info.Defs[id] != nil && id.Name == o.Name()) {
+						// inspect the right-hand side first, then stop: later uses see a new value
+						reassigned = true
+					}
+				}
+			case *ast.CallExpr:
+				fn := types.ExprString(y.Fun)
+				uses := false
+				for _, a := range y.Args {
+					if id, ok := a.(*ast.Ident); ok && p.info.Uses[id] == o {
+						uses = true
+					}
+				}
+				if uses && (fn == "fmt.Errorf" || fn == "zap.Error" || strings.HasPrefix(fn, "errors.")) {
+					out = append(out, finding{y.Pos(), encl[at], fmt.Sprintf("%s is passed to %s on the branch where it was just found to be nil: the test is inverted (the call's failure path runs on success and its errors are ignored)", o.Name(), fn)})
+				}
+				if se, ok := y.Fun.(*ast.SelectorExpr); ok && se.Sel.Name == "Error" {
+					if id, ok := se.X.(*ast.Ident); ok && p.info.Uses[id] == o {
+						out = append(out, finding{y.Pos(), encl[at], fmt.Sprintf("%s.Error() is called on the branch where %s was just found to be nil", o.Name(), o.Name())})
+					}
+				}
+			case *ast.ReturnStmt:
+				for _, r := range y.Results {
+					if id, ok := r.(*ast.Ident); ok && p.info.Uses[id] == o {
+						out = append(out, finding{y.Pos(), encl[at], fmt.Sprintf("%s is returned on the branch where it was just found to be nil: the test is inverted (success is reported where the call failed, or the work after it is skipped)", o.Name())})
+					}
+				}
+			}
+			return true
+		})
+	}
+	for _, f := range p.files {
+		ast.Inspect(f, func(nd ast.Node) bool {
+			ifs, ok := nd.(*ast.IfStmt)
+			if !ok {
+				return true
+			}
+			o, isNil, isTest := nilTest(ifs.Cond)
+			if !isTest {
+				return true
+			}
+			n++
+			if isNil {
+				check(ifs.Body, o, nd)
+			} else if eb, ok := ifs.Else.(*ast.BlockStmt); ok {
+				check(eb, o, nd)
+			}
+			return true
+		})
+	}
+	sort.Slice(out, func(i, j int) bool { return out[i].pos < out[j].pos })
+	return n, out
+}
+
+// checkPendingGuards: a transaction is (re)submitted only when the monitor of
+// the previous one says it is no longer pending. For every test of an
+// isPending() result, no submission may be reachable only through its
+// "pending" side: that would be the inverted guard (resubmit while pending,
+// wait for ever once it is not).
+func checkPendingGuards(cx *CheckCtx, sp *ssa.Package) {
+	w := cx.W
+	nTests := 0
+	// the pending query: a `func() bool` method that answers with the Load of an
+	// atomic.Bool field of its receiver (the monitor's in-flight flag)
+	pendingQ := map[*ssa.Function]bool{}
+	for _, fn := range allFuncs(sp) {
+		if fn.Blocks == nil || fn.Signature.Recv() == nil || fn.Signature.Params().Len() != 0 || fn.Signature.Results().Len() != 1 || !isBoolType(fn.Signature.Results().At(0).Type()) {
+			continue
+		}
+		for _, b := range fn.Blocks {
+			for _, ins := range b.Instrs {
+				c, ok := ins.(*ssa.Call)
+				if !ok {
+					continue
+				}
+				cal := c.Common().StaticCallee()
+				if cal == nil || cal.Name() != "Load" || cal.Signature.Recv() == nil || !strings.HasSuffix(typeName(cal.Signature.Recv().Type()), "atomic.Bool") {
+					continue
+				}
+				if fa, ok := c.Common().Args[0].(*ssa.FieldAddr); ok && len(fn.Params) > 0 && fa.X == fn.Params[0] {
+					pendingQ[fn] = true
+				}
+			}
+		}
+	}
+	if len(pendingQ) == 0 {
+		cx.undecided("anchor", "deploy/pending-query", "no method of package deploy answers with the Load of an atomic.Bool field of its receiver: the in-flight query of the transaction monitor cannot be identified", "")
+		return
+	}
+	for _, fn := range allFuncs(sp) {
+		if fn.Blocks == nil {
+			continue
+		}
+		var subs []*ssa.Call
+		for _, b := range fn.Blocks {
+			for _, ins := range b.Instrs {
+				if c, ok := ins.(*ssa.Call); ok && isSubmissionType(c.Type()) {
+					subs = append(subs, c)
+				}
+			}
+		}
+		for _, b := range fn.Blocks {
+			ifi, isIf := b.Instrs[len(b.Instrs)-1].(*ssa.If)
+			if !isIf {
+				continue
+			}
+			c, isCall := ifi.Cond.(*ssa.Call)
+			if !isCall {
+				continue
+			}
+			if cal := c.Common().StaticCallee(); cal == nil || !pendingQ[cal] {
+				continue
+			}
+			nTests++
+			bad := ""
+			for _, sc := range subs {
+				if viaEdge(b, 0, sc.Block()) {
+					bad = w.pos(sc.Pos())
+				}
+			}
+			cx.decide(bad == "", "pending-guard", fmt.Sprintf("deploy.%s@%s", fn.Name(), w.pos(ifi.Cond.Pos())), "no submission is reachable only through the 'still pending' side", "the submission at "+bad+" is reachable only while the previous transaction is still pending: the guard is inverted (duplicates are sent, and nothing once the first one is gone)", w.pos(ifi.Cond.Pos()))
+		}
+	}
+	cx.count("pending_tests", nTests)
+	cx.floor("pending_tests", 8)
+}
+
+// checkIndexOnEqualSide: where the local member's index is searched (a loop
+// with an Equal test whose index flows into a variable used after the loop),
+// the index is taken on the *equal* side of the test.
+func checkIndexOnEqualSide(cx *CheckCtx, sp *ssa.Package) {
+	w := cx.W
+	n := 0
+	for _, fn := range allFuncs(sp) {
+		if fn.Blocks == nil {
+			continue
+		}
+		for _, b := range fn.Blocks {
+			ifi, isIf := b.Instrs[len(b.Instrs)-1].(*ssa.If)
+			if !isIf || innermostLoop(b) == nil {
+				continue
+			}
+			c, isCall := ifi.Cond.(*ssa.Call)
+			if !isCall {
+				continue
+			}
+			cal := c.Common().StaticCallee()
+			if cal == nil || cal.Name() != "Equal" {
+				continue
+			}
+			hdr := innermostLoop(b)
+			// helper form: the index is returned straight from the loop
+			for _, blk := range fn.Blocks {
+				ret, isRet := blk.Instrs[len(blk.Instrs)-1].(*ssa.Return)
+				if !isRet || loopBlocks(hdr)[blk] || !hdr.Dominates(blk) {
+					continue
+				}
+				for _, rv := range ret.Results {
+					ev, isIns := rv.(ssa.Instruction)
+					if !isIns || !isInteger(rv.Type()) || ev.Block() == nil || !loopBlocks(hdr)[ev.Block()] {
+						continue
+					}
+					n++
+					cx.decide(viaEdge(b, 0, blk), "index-on-equal", fmt.Sprintf("deploy.%s@%s", fn.Name(), w.pos(ifi.Cond.Pos())), "the found index leaves the loop on the 'equal' side of the test", "the index returned from the search loop is returned on the 'not equal' side: the local member is identified as somebody else (wrong leader, wrong Alphabet contract)", w.pos(ifi.Cond.Pos()))
+				}
+			}
+			// the loop index: a phi of the header (or header+1 for range loops) flowing out of the loop
+			for _, blk := range fn.Blocks {
+				for _, ins := range blk.Instrs {
+					phi, isPhi := ins.(*ssa.Phi)
+					if !isPhi || !isInteger(phi.Type()) || loopBlocks(hdr)[blk] {
+						break
+					}
+					// edges coming out of this loop
+					for i, p := range blk.Preds {
+						if !(loopBlocks(hdr)[p] || hdr.Dominates(p)) || p == hdr {
+							continue
+						}
+						// only a value computed by this loop (its index) counts
+						ev, isIns := phi.Edges[i].(ssa.Instruction)
+						if !isIns || ev.Block() == nil || !loopBlocks(hdr)[ev.Block()] {
+							continue
+						}
+						n++
+						cx.decide(viaEdge(b, 0, p), "index-on-equal", fmt.Sprintf("deploy.%s@%s", fn.Name(), w.pos(ifi.Cond.Pos())), "the found index leaves the loop on the 'equal' side of the test", "the index taken from the search loop leaves it on the 'not equal' side: the local member is identified as somebody else (wrong leader, wrong Alphabet contract)", w.pos(ifi.Cond.Pos()))
+					}
+				}
+			}
+		}
+	}
+	// a library search (slices.Index*) has no side to get wrong; it still counts as a search site
+	for _, fn := range allFuncs(sp) {
+		for _, b := range fn.Blocks {
+			for _, ins := range b.Instrs {
+				if c, ok := ins.(*ssa.Call); ok {
+					if cal := c.Common().StaticCallee(); cal != nil && cal.Object() != nil && cal.Object().Pkg() != nil && cal.Object().Pkg().Path() == "slices" && strings.HasPrefix(cal.Object().Name(), "Index") {
+						n++
+					}
+				}
+			}
+		}
+	}
+	cx.count("index_searches", n)
+	cx.floor("index_searches", 1)
 }
